@@ -472,7 +472,7 @@ def oracle_history(h, res):
                     key = 'Equation.AddTerm:value'
                 fails.append({'key': key,
                               'what': 'Equation(%r, rhs=%r) after %d AddTerm calls %r renders %r which %s (env %s)' % (
-                                  h['lhs'], h['rhs'], i, [o[1] for o in h['ops'][:i]], rendered, bad,
+                                  h['lhs'], h['rhs'], i, h['ops'][:i], rendered, bad,
                                   {k: str(v) for k, v in env.items()}),
                               'replay': {'kind': 'history', 'case': h}})
                 return fails, 'checked'
@@ -518,7 +518,7 @@ def oracle_combine(h, res):
         if got != want:
             return [{'key': 'Equation.AddTerm:like-terms-not-combined',
                      'what': 'Equation(%r, rhs=%r) after AddTerm calls %r renders %r: %d signed chunks for %d distinct term '
-                             'bodies with non-zero net coefficient %r' % (h['lhs'], h['rhs'], [o[1] for o in h['ops'][:i]],
+                             'bodies with non-zero net coefficient %r' % (h['lhs'], h['rhs'], h['ops'][:i],
                                                                           rendered, got, want, {k: str(v) for k, v in net.items()}),
                      'replay': {'kind': 'history', 'case': h}}]
     return []
